@@ -21,7 +21,8 @@ import (
 
 func init() {
 	register(&Check{
-		ID: "C06", Level: "exploration", Configs: []string{"clean"},
+		ID:      "C06",
+		Tenants: func(c *core.Ctx, i int) tenant { return tenantPacketizer(c) }, Level: "exploration", Configs: []string{"clean"},
 		Run:         runC06,
 		QuickRuns:   150_000,
 		ThoroughSec: 600,
